@@ -24,6 +24,31 @@ def _chunked(name, ty, rows, per=16):
     return s
 
 
+def huff_tree(enc):
+    """the code tree of encode_table[] as a Lean term (certificate data: Lean checks that
+    walking every code through it ends at that symbol's leaf)"""
+    root = {}
+    for sym, (code, n) in enumerate(enc):
+        node = root
+        for i in range(n):
+            bit = (code >> (n - 1 - i)) & 1
+            if i == n - 1:
+                node[bit] = sym          # (a colliding table makes the Lean check fail, not the extractor)
+            else:
+                nxt = node.get(bit)
+                if not isinstance(nxt, dict):
+                    nxt = node[bit] = {}
+                node = nxt
+
+    def term(x):
+        if x is None:
+            return ".none"
+        if isinstance(x, dict):
+            return "(.node %s %s)" % (term(x.get(0)), term(x.get(1)))
+        return "(.leaf %d)" % x
+    return term(root)
+
+
 def huff_state_paths(enc, dec):
     """certificate for the Lean proof: for every state of the 4-bit decoding
     automaton the bit path (from the root of the code tree) it stands for.
@@ -100,6 +125,7 @@ int main(void){
     if any(n <= 0 or n > 32 or code >> n for code, n in enc):
         raise ExtractError("encode_table: code does not fit its bit length")
     paths = huff_state_paths(enc, dec)
+    tree = huff_tree(enc)
     s = "namespace LtVerif.Extracted\n\n"
     s += "/-- lshpack.c: HPACK_STATIC_TABLE_SIZE, INITIAL_DYNAMIC_TABLE_SIZE, DYNAMIC_ENTRY_OVERHEAD -/\n"
     s += "def hpackStaticTableSize : Nat := %d\n" % consts[0]
@@ -123,5 +149,9 @@ int main(void){
     s += "/-- certificate (computed by the extractor, checked in Lean): bit path of every\n"
     s += "    state of the 4-bit automaton from the root of the code tree (16 chunks of 16) -/\n"
     s += _chunked("hpackHuffStatePath", "List Bool", [_bits_lit(p) for p in paths])
+    s += "/-- binary code tree (leaf = symbol, 256 = EOS) -/\n"
+    s += "inductive HuffTree where\n  | leaf (s : Nat)\n  | node (l r : HuffTree)\n  | none\n\n"
+    s += "/-- certificate (computed by the extractor, checked in Lean): the code tree of encode_table[] -/\n"
+    s += "def hpackHuffTree : HuffTree :=\n  " + tree + "\n"
     s += "\nend LtVerif.Extracted\n"
     return s
